@@ -34,17 +34,24 @@ TraceSites == {<<"proc.Shutdown", "rec", "Shutdown">>, <<"proc.Shutdown", "rec",
                <<"exp.Export", "simple", "StartEnd">>, <<"exp.Export", "batch", "ForceFlush">>, <<"exp.Export", "batch", "Shutdown">>,
                <<"exp.Shutdown", "simple", "Shutdown">>, <<"exp.Shutdown", "simple", "Unregister">>,
                <<"exp.Shutdown", "batch", "Shutdown">>, <<"exp.Shutdown", "batch", "Unregister">>}
-TraceCalls == {"Get", "Register", "UnregisterSelf", "UnregisterOther", "ForceFlush", "Shutdown"}
+TraceCalls == {"Get", "Register", "UnregisterSelf", "UnregisterOther", "ForceFlush", "Shutdown", "StartEnd"}
 LogSites == {<<"proc.Shutdown", "rec", "Shutdown">>, <<"proc.ForceFlush", "rec", "ForceFlush">>, <<"proc.OnEmit", "rec", "Emit">>,
              <<"exp.Export", "simple", "Emit">>, <<"exp.Export", "batch", "ForceFlush">>, <<"exp.Export", "batch", "Shutdown">>,
              <<"exp.Shutdown", "simple", "Shutdown">>, <<"exp.Shutdown", "batch", "Shutdown">>,
              <<"exp.ForceFlush", "batch", "ForceFlush">>}
-LogCalls == {"Get", "ForceFlush", "Shutdown"}
+LogCalls == {"Get", "ForceFlush", "Shutdown", "Emit"}
 MetricSites == {<<"exp.Export", "periodic", "ForceFlush">>, <<"exp.Export", "periodic", "Shutdown">>,
                 <<"exp.Shutdown", "periodic", "Shutdown">>, <<"exp.ForceFlush", "periodic", "ForceFlush">>,
                 <<"callback", "manual", "Collect">>, <<"callback", "periodic", "ForceFlush">>, <<"callback", "periodic", "Shutdown">>,
                 <<"producer", "manual", "Collect">>, <<"producer", "periodic", "ForceFlush">>, <<"producer", "periodic", "Shutdown">>}
-MetricCalls == {"Get", "ForceFlush", "Shutdown", "Collect"}
+MetricCalls == {"Get", "ForceFlush", "Shutdown", "Collect", "Add"}
+(* TELEMETRY-PRODUCING re-entrant actions: the component's callback itself produces telemetry on the provider it     *)
+(* belongs to, through a handle obtained EARLIER (a self-instrumented exporter: "closing the connection is traced"):  *)
+(* starts and ends a span, emits a log record, records a measurement.  The item travels the ordinary path and reaches *)
+(* the very component whose callback is running -- e.g. the OnEnd of the simple span processor whose Shutdown is       *)
+(* waiting for its exporter's Shutdown.  Like every other cell it must RETURN (and the item, produced after the       *)
+(* exporter's Shutdown was called, must not be exported: export-after-exporter-shutdown).                              *)
+Telemetry == {"StartEnd", "Emit", "Add"}
 
 Matrix == Cross("trace", TraceSites, TraceCalls) \cup Cross("log", LogSites, LogCalls) \cup Cross("metric", MetricSites, MetricCalls)
 
@@ -55,6 +62,9 @@ ByDesign(c) ==
   \/ c.call = "Shutdown" /\ InFlush(c)                                    \* Shutdown flushes first
   \/ c.call = "Collect" /\ c.site \in {"callback", "producer"}            \* a collection from inside a collection
   \/ c.call \in {"UnregisterSelf"} /\ c.site = "exp.Export"               \* Unregister shuts the processor down: waits for its export
+  \* the simple processors hand every item to the exporter synchronously and never call Export concurrently (the
+  \* exporter interfaces promise it): an item produced from inside that Export waits for the export it is produced from
+  \/ c.call \in Telemetry /\ c.site = "exp.Export" /\ c.kind = "simple"
 
 Cells == {c \in Matrix : ~ByDesign(c)}
 Expect(c) == "returns"
@@ -65,5 +75,8 @@ Spec == Init /\ [][Next]_cell
 (* vacuity of the matrix itself *)
 Covers == /\ \E c \in Cells : c.trigger = "Shutdown" /\ c.site = "proc.Shutdown" /\ c.call \in {"Register", "UnregisterSelf"}
           /\ \E c \in Cells : c.trigger = "Unregister" /\ c.site = "proc.Shutdown" /\ c.call = "Get"
+          /\ \A k \in {"simple", "batch"} : \E c \in Cells : c.site = "exp.Shutdown" /\ c.kind = k /\ c.call = "StartEnd"
+          /\ \E c \in Cells : c.prov = "log" /\ c.site = "exp.Shutdown" /\ c.call = "Emit"
+          /\ \E c \in Cells : c.prov = "metric" /\ c.site = "exp.Shutdown" /\ c.call = "Add"
 ASSUME Covers
 =============================================================================
